@@ -56,6 +56,8 @@ def run_exact(N, ops, beta=1.0, uden=8, kind="vector"):
                 e["w"] = w
                 buf.add(ring.make_batch(kind, list(range(nxt, nxt + w))))
                 nxt += w
+            elif op[0] == "clear":
+                buf.clear()
             elif op[0] == "update":
                 e["idxs"], e["pris"] = list(op[1]), list(op[2])
                 buf.update_priorities(torch.tensor(op[1]), torch.tensor([float(p) for p in op[2]]))
@@ -120,6 +122,8 @@ def run_inexact(N, alpha, beta, ops, kind="vector", seed=0):
                 buf.add(ring.make_batch(kind, list(range(nxt, nxt + w))))
                 nxt += w
                 e["newmax_ok"] = all(buf.sum_tree[(p0 + j) % N] == mp ** alpha for j in range(w))
+            elif op[0] == "clear":
+                buf.clear()
             elif op[0] == "update":
                 idxs, pris = op[1], op[2]
                 e["k"] = len(idxs)
